@@ -175,6 +175,18 @@ def cases(seed: int = 0, thorough: bool = False):
         add(f"transpose:{perm}", lambda x, perm=perm: pt.transpose(x, perm), lambda x, perm=perm: np.transpose(x, perm),
             {"x": a3}, "remap", exact=True)
     add("transpose:default", lambda x: pt.transpose(x), lambda x: np.transpose(x), {"x": a3}, "remap", exact=True)
+    # every permutation of the other ranks too (a target may special-case SOME permutations, e.g. print the full
+    # reversal as `.T`: a shortcut taken for a permutation that only looks like one shows from rank 4 on)
+    for sh in [(), (3,), (2, 3), (2, 3, 4, 5)]:
+        a = _arr(rng, sh, "float64")
+        for perm in itertools.permutations(range(len(sh))):
+            add(f"transpose:rank{len(sh)}:{perm}", lambda x, perm=perm: pt.transpose(x, perm),
+                lambda x, perm=perm: np.transpose(x, perm), {"x": a}, "remap", exact=True)
+    a5 = _arr(rng, (2, 3, 2, 3, 2), "float64")
+    for perm in [(4, 3, 2, 1, 0), (4, 1, 2, 3, 0), (4, 2, 1, 3, 0), (4, 3, 1, 2, 0), (0, 3, 2, 1, 4), (1, 0, 2, 4, 3),
+                 (4, 0, 1, 2, 3), (1, 2, 3, 4, 0), (3, 4, 2, 0, 1)]:
+        add(f"transpose:rank5:{perm}", lambda x, perm=perm: pt.transpose(x, perm),
+            lambda x, perm=perm: np.transpose(x, perm), {"x": a5}, "remap", exact=True)
     add("T", lambda x: x.T, lambda x: x.T, {"x": a3}, "remap", exact=True)
     for new, order in itertools.product([(24,), (4, 6), (6, 4), (2, 12), (3, 2, 4), (4, 3, 2), (2, 1, 3, 4), (-1, 6), (2, -1)],
                                         ["C", "F"]):
